@@ -37,11 +37,12 @@ abbrev Powers := AMap Int
 
 namespace Powers
 
-/-- `Powers::insert`: accumulate; never removes an entry. -/
+/-- `Powers::insert`: accumulate; an entry that reaches zero is removed and a
+zero power is never inserted. -/
 def insert (p : Powers) (u : UnitKey) (power : Int) : Powers :=
   match AMap.get? p u with
-  | none => AMap.insert p u power
-  | some old => AMap.insert p u (old + power)
+  | none => if power ≠ 0 then AMap.insert p u power else p
+  | some old => if old + power = 0 then AMap.erase p u else AMap.insert p u (old + power)
 
 end Powers
 
@@ -86,30 +87,38 @@ def baseUnits (c : Compound) : List (UnitKey × Int) × Powers :=
     let (p', isDer) := e.1.powers acc.2 e.2.power
     (if isDer then acc.1 ++ [(e.1, e.2.power)] else acc.1, p')) ([], [])
 
+/-- `Compound::is_scale`. -/
+def isScale (c : Compound) (st : State) : Bool := c.length == 1 && st.power == 1
+
+/-- `Compound::checked_pow` (the `i32` overflow branch is outside the model). -/
+def checkedPow (c : Compound) (n : Int) : Compound :=
+  (c.map (fun e => (e.1, { e.2 with power := e.2.power * n }))).filter (fun e => e.2.power ≠ 0)
+
 /-- `apply_conversion`. -/
-def applyConversion (pow : Int) (ratio : Rat) : Conversion → Except CErr Rat
+def applyConversion (pow : Int) (ratio : Rat) (scale : Bool) : Conversion → Except CErr Rat
   | .none => .ok ratio
   | .methods tmN tmD taN taD fmN fmD faN faD =>
-    if pow.natAbs ≠ 1 then .error .conversion
+    if !scale || pow.natAbs ≠ 1 then .error .conversion
     else if pow < 0 then .ok (mkFracI fmN fmD * ratio + mkFracI faN faD)
     else .ok (mkFracI tmN tmD * ratio + mkFracI taN taD)
   | .factor n d =>
     if pow ≠ 0 then .ok (ratio * ratZPow (mkFrac n d) pow) else .ok ratio
   | .offset n d =>
-    if pow.natAbs ≠ 1 then .error .conversion
+    if !scale || pow.natAbs ≠ 1 then .error .conversion
     else .ok (ratio + mkFrac n d * (pow : Rat))
 
 def tenPow (e : Int) : Rat := ratZPow 10 e
 
 /-- The `for (name, state) in &other.names` loop of `factor` / `mul`. -/
-def scaleIn (names : Compound) (value : Rat) : Except CErr Rat :=
+def scaleIn (affine : Bool) (names : Compound) (value : Rat) : Except CErr Rat :=
   names.foldlM (fun v (e : UnitKey × State) =>
-    applyConversion e.2.power (v * tenPow (e.2.pfx * e.2.power)) (Units.conversion e.1)) value
+    applyConversion e.2.power (v * tenPow (e.2.pfx * e.2.power)) (affine && isScale names e.2)
+      (Units.conversion e.1)) value
 
 /-- The `for (name, state) in &self.names` loop of `factor`. -/
 def scaleOut (names : Compound) (value : Rat) : Except CErr Rat :=
   names.foldlM (fun v (e : UnitKey × State) => do
-    let v' ← applyConversion (-e.2.power) v (Units.conversion e.1)
+    let v' ← applyConversion (-e.2.power) v (isScale names e.2) (Units.conversion e.1)
     pure (v' / tenPow (e.2.pfx * e.2.power))) value
 
 /-- The dimension comparison of `factor`. -/
@@ -125,7 +134,7 @@ def factor (self other : Compound) (value : Rat) : Except CErr (Option Rat) :=
     let rhs := (baseUnits other).2
     if !sameBases lhs rhs then .ok none
     else do
-      let v ← scaleIn other value
+      let v ← scaleIn true other value
       let v ← scaleOut self v
       pure (some v)
 
@@ -165,7 +174,7 @@ def reconstructStep (acc : Rat × Compound) (d : UnitKey × Int × Int) : Except
       let names := match AMap.get? names unit with
         | none => AMap.insert names unit { power := modPower, pfx := 0 }
         | some st => AMap.insert names unit { st with power := st.power + modPower }
-      match applyConversion (-modPower) out (Units.conversion unit) with
+      match applyConversion (-modPower) out false (Units.conversion unit) with
       | .error e => .error e
       | .ok out' => .ok (out', names)
 
@@ -194,10 +203,10 @@ def mul (debug : Bool) (self other : Compound) (n : Int) (lhs rhs : Rat) :
       | some st =>
         let np := st.power + e.2 * n
         if np = 0 then AMap.erase nm e.1 else AMap.insert nm e.1 { st with power := np }) names
-    match scaleIn self lhs with
+    match scaleIn false self lhs with
     | .error e => .error e
     | .ok lhs' =>
-      match scaleIn other rhs with
+      match scaleIn false other rhs with
       | .error e => .error e
       | .ok rhs' =>
         let der := lhsDer.map (fun e => (e.1, e.2, (1 : Int))) ++ rhsDer.map (fun e => (e.1, e.2, n))
